@@ -3,7 +3,9 @@
 //!
 //! * tcp: one local connection per scenario through one entry point kind (fixed TCP remote, Unix
 //!   socket, SOCKS4, SOCKS4a, SOCKS5 CONNECT to IPv4 / IPv6 / domain, HTTP CONNECT to IPv4 / IPv6 /
-//!   domain), 1-4 of them concurrently; payload sizes, chunkings, close orders, refusal.  Oracle =
+//!   domain), 1-4 of them concurrently; payload sizes, chunkings, close orders, refusal, dialogues
+//!   after a half-close (one end half-closes, the other then sends short messages one at a time and
+//!   keeps the connection open: each must arrive while nothing else happens).  Oracle =
 //!   the property statement (a direct connection): exact bytes both ways, end-of-stream propagated
 //!   per direction while the other direction keeps working, close/refusal ends the local connection.
 //! * udp: 1-4 local UDP clients x tagged echo targets through the UDP remotes or SOCKS5 UDP
@@ -25,7 +27,7 @@ use io::Chunk;
 use pvhf::{Args, Driver, FailKind, Report, Rng, Tier, Value, fnv, json};
 use std::sync::Arc;
 use std::time::{Duration, Instant};
-use tcp::{check_conn, run_conn, ConnObs, Entry, Mode, TcpScn, ENTRIES, MODES};
+use tcp::{check_conn, run_conn, ConnObs, Entry, Mode, TcpScn, ALL_MODES, ENTRIES, MODES};
 use udp::{run_udp, UdpOutcome, UdpScn};
 use world::{World, SLOTS};
 
@@ -191,7 +193,10 @@ fn sizes(tier: Tier) -> Vec<usize> {
 fn random_tcp(r: &mut Rng, tier: Tier, entry: Option<Entry>, mode: Option<Mode>) -> TcpScn {
     let sz = sizes(tier);
     let entry = entry.unwrap_or_else(|| *r.pick(&ENTRIES));
-    let mode = mode.unwrap_or_else(|| *r.pick(&MODES));
+    let mode = mode.unwrap_or_else(|| *r.pick(&ALL_MODES));
+    if mode.is_hold() {
+        return random_hold(r, tier, entry, mode);
+    }
     let mut up = *r.pick(&sz);
     let mut down = *r.pick(&sz);
     // keep the sum moderate except now and then
@@ -210,6 +215,73 @@ fn random_tcp(r: &mut Rng, tier: Tier, entry: Option<Entry>, mode: Option<Mode>)
     }
     let slow_ms = if r.chance(1, 6) { *r.pick(&[50u64, 300]) } else { 0 };
     TcpScn { entry, mode, up, down, upc: chunk_for(r, up), downc: chunk_for(r, down), slow_ms, seed: r.next() % 1_000_000_000 }
+}
+
+/// A dialogue after a half-close: the first payload is any size; the direction that stays open carries
+/// 1-12 messages of 1 byte .. a few frames each (mostly below the 8 KiB of a default I/O buffer), each
+/// awaited before the next.
+fn random_hold(r: &mut Rng, tier: Tier, entry: Entry, mode: Mode) -> TcpScn {
+    let first = *r.pick(&sizes(tier));
+    let msgs = *r.pick(&[1usize, 1, 1, 2, 3, 5, 12]);
+    let one = *r.pick(&[1usize, 1, 2, 7, 100, 100, 512, 1460, 3000, 4096, 8191, 8192, 8193, 20_000]);
+    let held = one * msgs;
+    let heldc = match r.below(3) {
+        _ if msgs == 1 => Chunk::Whole,
+        0 => Chunk::Random(r.next() % 1_000_000, (2 * one).max(2)),
+        _ => Chunk::Fixed(one),
+    };
+    let firstc = chunk_for(r, first);
+    let slow_ms = *r.pick(&[0u64, 0, 0, 20, 120]);
+    let seed = r.next() % 1_000_000_000;
+    if mode == Mode::ClientFirstHold {
+        TcpScn { entry, mode, up: first, down: held, upc: firstc, downc: heldc, slow_ms, seed }
+    } else {
+        TcpScn { entry, mode, up: held, down: first, upc: heldc, downc: firstc, slow_ms, seed }
+    }
+}
+
+/// Every entry point kind with (a) the client half-closing first and the target answering with ONE short
+/// message (1 byte, 100 bytes, a few KiB) while it keeps the connection open, (b) the mirror image, (c)
+/// ping-pong after a half-close in either direction (several short messages, each awaited).
+fn half_close_pass(r: &mut Rng, tier: Tier) -> Vec<Scn> {
+    let mut all = vec![];
+    let firsts = [0usize, 1, 513, 8193, 65_536];
+    let pauses = [0u64, 30, 150];
+    let few_kib = [3000usize, 8191, 4096, 5000];
+    for (i, e) in ENTRIES.iter().enumerate() {
+        let mut push = |r: &mut Rng, mode: Mode, first: usize, held: usize, heldc: Chunk, slow_ms: u64| {
+            let firstc = chunk_for(r, first);
+            let seed = r.next() % 1_000_000_000;
+            all.push(if mode == Mode::ClientFirstHold {
+                TcpScn { entry: *e, mode, up: first, down: held, upc: firstc, downc: heldc, slow_ms, seed }
+            } else {
+                TcpScn { entry: *e, mode, up: held, down: first, upc: heldc, downc: firstc, slow_ms, seed }
+            });
+        };
+        // (a) one short answer after the client's half-close
+        let mut answers = vec![1usize, 100, few_kib[i % 4]];
+        // (b) one short message after the target's half-close
+        let mut mirrored = vec![[1usize, 100, 3000, 8191][i % 4]];
+        if tier == Tier::Thorough {
+            answers.extend([2, 512, 8192, 8193, 20_000]);
+            mirrored = vec![1, 2, 100, 512, 3000, 8191, 8192, 8193, 20_000];
+        }
+        for (j, n) in answers.iter().enumerate() {
+            push(r, Mode::ClientFirstHold, firsts[(i + j) % 5], *n, Chunk::Whole, pauses[(i + j) % 3]);
+        }
+        for (j, n) in mirrored.iter().enumerate() {
+            push(r, Mode::TargetFirstHold, firsts[(i + j + 2) % 5], *n, Chunk::Whole, pauses[(i + j + 1) % 3]);
+        }
+        // (c) ping-pong
+        let one = [1usize, 64, 1000, 2500][i % 4];
+        push(r, Mode::ClientFirstHold, firsts[(i + 3) % 5], 5 * one, Chunk::Fixed(one), pauses[i % 3]);
+        push(r, Mode::TargetFirstHold, firsts[(i + 4) % 5], 4 * one + 1, Chunk::Fixed(one), pauses[(i + 2) % 3]);
+        if tier == Tier::Thorough {
+            push(r, Mode::ClientFirstHold, 100, 9000, Chunk::Random(i as u64 + 11, 3000), 0);
+            push(r, Mode::TargetFirstHold, 100, 9000, Chunk::Random(i as u64 + 12, 3000), 0);
+        }
+    }
+    all.chunks(SLOTS).map(|c| Scn::Tcp(c.to_vec())).collect()
 }
 
 /// Several windows (512 frames) of data against a reader that starts late: 5 MiB in 8 KiB frames.
@@ -286,12 +358,27 @@ fn fixed_pass(r: &mut Rng, tier: Tier) -> Vec<Scn> {
     // listener has its own flow id)
     v.push(Scn::Udp(UdpScn { socks: true, clients: 1, targets: vec![0, 2], sizes: vec![16, 17], replies: 1, domain: false, idle_ms: 0, seed: 3 }));
     v.push(Scn::Udp(UdpScn { socks: false, clients: 2, targets: vec![0, 2], sizes: vec![16, 17], replies: 1, domain: false, idle_ms: 0, seed: 4 }));
+    // dialogues after a half-close, every entry point kind
+    v.extend(half_close_pass(r, tier));
     v
 }
 
 // ---------------------------------------------------------------------------------------------
 // Running, confirming, reporting
 // ---------------------------------------------------------------------------------------------
+
+fn side_json(s: &io::SideObs) -> Value {
+    let mut v = json!({"received": s.received.len(), "sent": s.sent, "eof": s.saw_eof, "hang": s.hang, "read_err": s.read_err, "write_err": s.write_err});
+    // the side that kept the connection open after the peer's half-close
+    if !s.confirm_ms.is_empty() || s.unconfirmed.is_some() {
+        v["messages_confirmed_by_peer_after_ms"] = json!(s.confirm_ms);
+        v["message_not_confirmed"] = match &s.unconfirmed {
+            Some(u) => json!({"message": u.msg, "offset": u.offset, "len": u.len, "waited_ms": u.waited_ms, "peer_had": u.peer_had, "peer_stopped_reading": u.peer_ended}),
+            None => Value::Null,
+        };
+    }
+    v
+}
 
 fn outcome_json(o: &Outcome) -> Value {
     match o {
@@ -301,8 +388,8 @@ fn outcome_json(o: &Outcome) -> Value {
             "unexpected_target_connections": unexpected,
             "connections": v.iter().map(|c| json!({
                 "handshake": c.handshake, "handshake_fail": c.handshake_fail, "ms": c.ms,
-                "client": {"received": c.client.received.len(), "sent": c.client.sent, "eof": c.client.saw_eof, "hang": c.client.hang, "read_err": c.client.read_err, "write_err": c.client.write_err},
-                "target": c.target.as_ref().map(|t| json!({"received": t.received.len(), "sent": t.sent, "eof": t.saw_eof, "hang": t.hang, "read_err": t.read_err, "write_err": t.write_err})),
+                "client": side_json(&c.client),
+                "target": c.target.as_ref().map(side_json),
             })).collect::<Vec<_>>(),
         }),
     }
@@ -374,6 +461,9 @@ fn main() {
     if let Some(ms) = std::env::var("E2E_STEP_MS").ok().and_then(|s| s.parse().ok()) {
         io::STEP_MS.store(ms, std::sync::atomic::Ordering::Relaxed);
     }
+    if let Some(ms) = std::env::var("E2E_PROMPT_MS").ok().and_then(|s| s.parse().ok()) {
+        io::PROMPT_MS.store(ms, std::sync::atomic::Ordering::Relaxed);
+    }
     if let Some(line) = args.opt("--scenario") {
         let sc = Scn::parse(line).expect("scenario line");
         let mt = !args.flag("--current-thread");
@@ -387,7 +477,7 @@ fn main() {
     if let Some(p) = &args.replay {
         std::process::exit(replay(p));
     }
-    let rule = "scenario = 1-4 concurrent local TCP connections (entry point kind, close order, payload sizes, chunkings) or one UDP \
+    let rule = "scenario = 1-4 concurrent local TCP connections (entry point kind, close order incl. dialogues after a half-close, payload sizes, chunkings) or one UDP \
 scenario (1-4 local UDP clients x tagged echo targets x payload sizes, via UDP remotes or SOCKS5 UDP associations) run in real time \
 through the real client_main_inner and the real server on loopback; plus map-operation sequences on the real client maps under the \
 paused clock compared with the Lean model. Non-trivial = at least one byte / one datagram crossed the tunnel, or a close / refusal \
@@ -522,6 +612,8 @@ was propagated; distinct by scenario text";
     let mut infra = 0;
     let mut skipped = 0usize;
     let (mut hdr_remote, mut hdr_client, mut hdr_other) = (0usize, 0usize, 0usize);
+    // dialogues after a half-close: messages awaited, slowest confirmation
+    let (mut hold_msgs, mut hold_max_ms) = (0usize, 0u64);
     for (i, sc) in scs.iter().enumerate() {
         let (mut out, mt) = outcomes[i].take().expect("outcome");
         if let Outcome::Infra(e) = &out {
@@ -601,6 +693,12 @@ was propagated; distinct by scenario text";
             Outcome::Infra(_) => false,
         };
         rep.case(nontrivial.then(|| fnv(sc.line().as_bytes())));
+        if let Outcome::Tcp(obs, _) = &out {
+            for s in obs.iter().flat_map(|c| std::iter::once(&c.client).chain(c.target.as_ref())) {
+                hold_msgs += s.confirm_ms.len();
+                hold_max_ms = hold_max_ms.max(s.confirm_ms.iter().copied().max().unwrap_or(0));
+            }
+        }
         match (sc, &out) {
             (Scn::Tcp(v), _) => {
                 rep.count(&format!("tcp/concurrent-{}", v.len()));
@@ -617,6 +715,12 @@ was propagated; distinct by scenario text";
                     rep.count(&format!("tcp/up-bytes/{}", bucket(s.up)));
                     rep.count(&format!("tcp/down-bytes/{}", bucket(s.down)));
                     rep.count(&format!("tcp/chunking/{}", s.upc.text().split(':').next().unwrap_or("?")));
+                    if s.mode.is_hold() {
+                        let (n, c) = if s.mode == Mode::ClientFirstHold { (s.down, &s.downc) } else { (s.up, &s.upc) };
+                        let k = c.sizes(n).len();
+                        rep.count(&format!("tcp/after-half-close/messages-{}", match k { 0 => "0", 1 => "1", 2..=5 => "2..5", _ => ">5" }));
+                        rep.count(&format!("tcp/after-half-close/largest-message/{}", match c.sizes(n).iter().copied().max().unwrap_or(0) { 0 => "0", 1 => "1", 2..=512 => "2..512", 513..=8191 => "513..8191", _ => ">=8192" }));
+                    }
                 }
             }
             (Scn::Udp(u), Outcome::Udp(o)) => {
@@ -649,6 +753,10 @@ was propagated; distinct by scenario text";
     for u in unreproduced.iter().take(8) {
         rep.notes.push(format!("failed once, not reproduced in 3 runs alone: {u}"));
     }
+    rep.notes.push(format!(
+        "dialogues after a half-close: {hold_msgs} messages written into a connection that was then kept open and idle until the other end had them; slowest {hold_max_ms} ms (bound {} ms)",
+        io::prompt().as_millis()
+    ));
     rep.notes.push(format!(
         "SOCKS5 UDP reply headers (all well-formed, payload recovered): DST.ADDR/DST.PORT named the remote host in {hdr_remote}, the local client's own address in {hdr_client}, something else in {hdr_other} replies"
     ));
